@@ -11,3 +11,11 @@ LEVEL_TEXT = EXPLANATION
 TIMEOUT_MS = {'quick': 20000, 'thorough': 120000}
 MUSTFAIL_PER_FN = {'quick': 1, 'thorough': 6}
 BOUNDED = [hub_bounded('C03-entry-points', ['basic', 'nows', 'multiroot', 'identical', 'iframe', 'small', 'api', 'plain'], ['core'])]
+
+
+def _s3(ctx):
+    from pyvc import structural
+    return structural.C03_structural(ctx)
+
+
+STRUCTURAL = [_s3]
